@@ -634,3 +634,205 @@ def run(ctx):
     _run_main_rest2(ctx)
     corr_rest2(ctx, parts=('cluster',))
     ctx.flush()
+
+
+# ---- extras3 (hx_r7d, round 7): measures that keep STATE on the object they are given; lag matching on exactly linear records --------------------
+# compute_rotated hands `func` (or getattr) one signal per angle.  The property promises "exactly the measure of that combination" for ALL callables,
+# including those written like the library's own eqsig.stockwell helpers (store a transform on the signal and reuse it if present), those that
+# memoise in an attribute / in a dictionary keyed on the object, and those that change the object they were given.  Any implementation that hands
+# the same object (or an object with left-over lazily computed state) to two angles, or to two scans, answers such a measure with a stale value.
+
+def _x3_measures(n, dt):
+    """[(label, make() -> callable with its own private state, pure(sig) -> the same measure without any state)]"""
+    from eqsig import stockwell
+
+    def energy(sg):
+        return float(np.sum(np.asarray(sg.values, dtype=float) ** 2))
+
+    def mk_attr():
+        def f(sg):
+            if not hasattr(sg, '_x3_energy'):
+                sg._x3_energy = energy(sg)
+            return sg._x3_energy
+        return f
+
+    def mk_dict_attr():
+        def f(sg):
+            return sg.__dict__.setdefault('x3_cache', {}).setdefault('abs-sum', np.cumsum(np.abs(sg.values)))   # array-valued: last element taken
+        return f
+
+    def mk_keyed_on_object():
+        seen = {}                                   # keyed on the object itself (keeps it alive, so ids are never reused)
+
+        def f(sg):
+            if sg not in seen:
+                seen[sg] = float(np.max(sg.values) - np.min(sg.values))
+            return seen[sg]
+        return f
+
+    def mk_counting():
+        calls = {}
+
+        def f(sg):
+            k = calls[id(sg)][1] + 1 if id(sg) in calls else 1
+            calls[id(sg)] = (sg, k)                 # the object is kept alive together with its count
+            return float(sg.values[0]) if k == 1 else float('nan')   # only the FIRST look at an object is answered
+        return f
+
+    def mk_mutating():
+        def f(sg):
+            sg.add_constant(1.0)                    # works on the object it was given (a copy of the combination as far as the caller can tell)
+            return sg.pga
+        return f
+
+    def mk_reading_then_memo():
+        def f(sg):
+            if getattr(sg, 'x3_pgv', None) is None:
+                sg.x3_pgv = (sg.pgv, sg.pgd, float(sg.displacement[-1]))
+            return np.array(sg.x3_pgv)              # array-valued -> pgd drift (last element)
+        return f
+
+    out = [('callable memoising in an attribute of the signal', mk_attr, energy),
+           ('callable memoising in a dict stored on the signal (array-valued)', mk_dict_attr, lambda sg: np.cumsum(np.abs(sg.values))),
+           ('callable memoising in a dict keyed on the signal object', mk_keyed_on_object, lambda sg: float(np.max(sg.values) - np.min(sg.values))),
+           ('callable answering only the first look at each object', mk_counting, lambda sg: float(sg.values[0])),
+           ('callable that shifts the signal it is given', mk_mutating, lambda sg: float(np.max(np.abs(np.asarray(sg.values) + 1.0)))),
+           ('callable memoising peak velocity / displacement on the signal', mk_reading_then_memo, lambda sg: float(sg.displacement[-1]))]
+    if 4 <= n <= 96:
+        # the library's own time-frequency helper keeps its transform on the signal (asig.swtf)
+        out.append(('eqsig.stockwell.get_max_stockwell_freq (max over time)', lambda: (lambda sg: float(np.max(stockwell.get_max_stockwell_freq(sg)))),
+                    lambda sg: float(np.max(stockwell.get_max_stockwell_freq(sg)))))
+        out.append(('eqsig.stockwell.get_max_stockwell_freq (whole series; last element taken)', lambda: stockwell.get_max_stockwell_freq, stockwell.get_max_stockwell_freq))
+    return out
+
+
+_X3_LAZY_NAMES = ['pgv', 'pgd', 'velocity', 'displacement', 'fa_spectrum', 'fa_frequencies', 'smooth_fa_spectrum', 'time', 's_a', 's_d', 's_v', 'pga', 'npts']
+
+
+def _x3_same(a, b):
+    a, b = np.asarray(a), np.asarray(b)
+    return a.shape == b.shape and bool(np.array_equal(a, b, equal_nan=True) if a.dtype.kind in 'fc' and b.dtype.kind in 'fc' else np.array_equal(a, b))
+
+
+def _x3_stateful(ctx, cur):
+    import eqsig
+    from eqsig.multiple import combine_at_angle, compute_rotated
+    rng = ctx.rng
+    for it in range(36 if ctx.tier == 'quick' else 400):
+        n = gen.log_int(rng, 4, 96 if it % 3 else 300)
+        dt = gen.any_dt(rng) if it % 2 else rng.choice(DYADIC_DTS)
+        recs = [gen.any_record(rng, n, dt)[1] for _ in range(3)]
+        if it % 4 == 0:
+            recs = [gen.sine_record(rng, n, dt) * np.hanning(n + 2)[1:-1] for _ in range(3)]            # wave packets: the dominant frequency moves with the angle
+        ns, we, third = recs
+        off = rng.choice([0, 0.0, 30.5, 90, 200, -45.25, rng.uniform(-720, 720)])
+        points = rng.choice([2, 3, 5, 8])
+        a_ns, a_we, a_3 = (ctx.aged(eqsig.AccSignal, r, dt) for r in recs)
+        ctx.last_object_history = None
+        meas = _x3_measures(n, dt)
+        label, make, pure = meas[it % len(meas)] if rng.random() < 0.7 else rng.choice(meas)
+        inputs = {'ns': ns, 'we': we, 'dt': dt, 'angle_off_ns': off, 'points': points, 'measure': label}
+        cur.clear()
+        cur.update(inputs)
+        ctx.hist('extras3/stateful-measure/' + label.split(' (')[0])
+        ctx.count_case(('x3', ns.tobytes(), we.tobytes(), dt, off, points, label), nontriv([ns, we]))
+        f = make()
+        # two scans in a row with the SAME callable (its private state survives from the first scan to the second), other components in the second
+        for which, (p, q, pv, qv) in (('first scan', (a_ns, a_we, ns, we)), ('second scan with the same callable, other components', (a_we, a_3, we, third))):
+            res = call_impl(compute_rotated, p, q, angle_off_ns=off, func=f, points=points)
+            inp = {**inputs, 'scan': which, 'ns': pv, 'we': qv}
+            if res[0] != 'ok':
+                ctx.oracle('C18.b compute_rotated returns for equally sampled components and a given measure', False, inp, detail=res)
+                continue
+            deg, vals = res[1]
+            want = []
+            for d in deg:
+                v = pure(combine_at_angle(p, q, d))                   # a FRESH combination, a measure without memory
+                want.append(v[-1] if hasattr(v, '__len__') else v)
+            ok = _x3_same(np.asarray(vals, dtype=float), np.asarray(want, dtype=float))
+            ctx.oracle('C18.b the i-th value is exactly the measure of the combination at degrees[i] also for a callable that keeps state on / about '
+                       'the signal object it is given (each angle equals the measure of a fresh combination)', ok, inp,
+                       detail=None if ok else {'degrees': deg[:8], 'scan': np.asarray(vals)[:8], 'fresh combinations': np.asarray(want)[:8]})
+        # parameter NAMES whose value is computed lazily and cached on the signal
+        name = _X3_LAZY_NAMES[it % len(_X3_LAZY_NAMES)]
+        if name in ('s_a', 's_d', 's_v') and n * points > 600:
+            name = 'pgd'
+        ctx.hist('extras3/lazy-parameter/' + name)
+        inp = {'ns': ns, 'we': we, 'dt': dt, 'angle_off_ns': off, 'points': points, 'parameter': name}
+        cur.clear()
+        cur.update(inp)
+        import warnings
+        with warnings.catch_warnings():
+            warnings.simplefilter('ignore')
+            res = call_impl(compute_rotated, a_ns, a_we, angle_off_ns=off, parameter=name, points=points)
+            if res[0] != 'ok':
+                ctx.oracle('C18.b compute_rotated returns for equally sampled components and a given measure', False, inp, detail=res)
+            else:
+                deg, vals = res[1]
+                want = [getattr(combine_at_angle(a_ns, a_we, d), name) for d in deg]
+                ok = len(vals) == len(want) and all(_x3_same(x, y) for x, y in zip(vals, want))
+                ctx.oracle('C18.b parameter name: the i-th value is exactly that (lazily computed) attribute of a fresh combination at degrees[i]', ok, inp,
+                           detail=None if ok else {'degrees': deg[:8]})
+        # the combination is a NEW signal: later combinations / scans do not reach objects handed out earlier
+        t1, t2 = rng.uniform(-400, 800), rng.choice([0, 90, 33.0, rng.uniform(-400, 800)])
+        s1 = combine_at_angle(a_ns, a_we, t1)
+        keep, pgv1 = np.array(s1.values), s1.pgv
+        s2 = combine_at_angle(a_ns, a_we, t2)
+        compute_rotated(a_ns, a_we, angle_off_ns=off, parameter='pgv', points=2)
+        ok = s1 is not s2 and s1 is not a_ns and s1 is not a_we and _x3_same(s1.values, keep) and s1.pgv == pgv1 and _x3_same(a_ns.values, ns) and _x3_same(a_we.values, we)
+        ctx.oracle('C18.a every combination is a signal of its own: a combination obtained earlier keeps its values and measures when further angles are '
+                   'combined or scanned, and the components are unchanged', ok, {'ns': ns, 'we': we, 'dt': dt, 'angle': t1, 'then_angle': t2})
+
+
+def _x3_linear_lags(ctx, cur):
+    """lag matching on records that are exactly linear / staircases / linear + short period in exactly representable values: a wrong lag leaves an
+    exactly CONSTANT residual there (ranking rules that ignore a constant offset tie), a uniform staircase leaves a periodic one"""
+    rng = ctx.rng
+    for it in range(40 if ctx.tier == 'quick' else 400):
+        steps = rng.choice([2, 3, 5, 10])
+        n = rng.choice([2 * steps + 3, 12 + steps, 20 + steps, 40, 75])
+        kind = ['integer ramp', 'steep ramp', 'uniform staircase', 'ramp + short period', 'ramp with one kink', 'sample counter'][it % 6]
+        slope = rng.choice([1, 2, 3, -1, -4, 7])
+        j = np.arange(n)
+        if kind == 'integer ramp':
+            base = slope * j + rng.randint(-20, 20)
+        elif kind == 'sample counter':
+            base = j.copy()
+        elif kind == 'steep ramp':
+            base = slope * j * 8                                                # tm_case works on whole numbers
+        elif kind == 'uniform staircase':
+            base = slope * (j // rng.choice([2, 3, 4]))
+        elif kind == 'ramp + short period':
+            per = rng.choice([2, 3])
+            base = slope * j + np.array([rng.randint(-3, 3) for _ in range(per)])[j % per]
+        else:
+            base = slope * j + np.where(j >= rng.randrange(1, n - 1), rng.choice([1, -2, 5]), 0)
+        base = [int(x) for x in base]
+        nsig = rng.choice([2, 2, 3, 4])
+        master = rng.randrange(nsig)
+        sigs, want = [], {}
+        for k in range(nsig):
+            if k == master:
+                sigs.append(list(base))
+                continue
+            L = rng.choice([l for l in range(-steps + 1, steps) if l != 0])
+            sigs.append(shifted(rng, base, L))
+            want[k] = L
+        cur.clear()
+        cur.update({'signals': sigs, 'master_index': master, 'steps': steps, 'lags': want})
+        tm_case(ctx, sigs, master, steps, 'linear/' + kind, want)
+    ctx.flush()
+
+
+def extras3(ctx):
+    from _hxb_common import guarded_sections
+    guarded_sections(ctx, 'C18', [('stateful measures', _x3_stateful), ('linear lags', _x3_linear_lags)])
+
+
+_run_main3 = run
+
+
+def run(ctx):
+    _run_main3(ctx)
+    extras3(ctx)
+    ctx.flush()
